@@ -90,7 +90,7 @@ func djbKey(r *rng, lead []byte, plen int, target uint32) []byte {
 		for len(p) < plen {
 			p = append(p, identAlpha[10+r.intn(len(identAlpha)-10)])
 		}
-		if s := djbSolve(p, target, 1+r.intn(3)); len(s) > 0 {
+		if s := djbSolve(p, target, 1+r.intn(2)); len(s) > 0 {
 			return s[len(s)-1]
 		}
 		if plen == len(lead) {
@@ -278,7 +278,7 @@ func genProbes(r *rng, keys [][]byte, extra [][]byte, capPerKey int) [][]byte {
 		}
 	}
 	// DJB-colliding and hash-zero keys that are NOT declared
-	if len(keys) > 0 {
+	if len(keys) > 0 && r.chance(40) {
 		k := keys[r.intn(len(keys))]
 		lead := k
 		if len(lead) > 2 {
@@ -375,13 +375,12 @@ func c14FieldIDMap(r *rng) {
 	if ok {
 		var found toks
 		nf := 0
-		for id := 0; id < 65536; id++ {
+		nf = sweepIDs(&found, func(id int) (int64, bool) {
 			if p := m.Get(int32(id)); p != nil {
-				nf++
-				found.i(id)
-				found.z(*(*int64)(p))
+				return *(*int64)(p), true
 			}
-		}
+			return 0, false
+		})
 		t.i(nf)
 		t = append(t, found...)
 		all := m.All()
@@ -392,6 +391,29 @@ func c14FieldIDMap(r *rng) {
 		t.i(m.Size())
 	}
 	out.emit(1401, t...)
+}
+
+// all ids 0..65535: (id, value) of every id found; a panic at an id is recorded as value -3 and the sweep goes on
+func sweepIDs(found *toks, get func(id int) (int64, bool)) int {
+	nf, cur := 0, 0
+	for cur < 65536 {
+		ok, _ := noPanic(func() {
+			for ; cur < 65536; cur++ {
+				if v, has := get(cur); has {
+					nf++
+					found.i(cur)
+					found.z(v)
+				}
+			}
+		})
+		if !ok {
+			nf++
+			found.i(cur)
+			found.z(-3)
+			cur++
+		}
+	}
+	return nf
 }
 
 // ---- 1402: FieldNameMap ------------------------------------------------------------------------------
@@ -615,13 +637,12 @@ func c14Sweep(r *rng, desc *thrift.TypeDescriptor, mapway int, extra [][]byte, c
 	t.i(pos)
 	var found toks
 	nf := 0
-	for id := 0; id < 65536; id++ {
+	nf = sweepIDs(&found, func(id int) (int64, bool) {
 		if f := st.FieldById(thrift.FieldID(id)); f != nil {
-			nf++
-			found.i(id)
-			found.i(int(f.ID()))
+			return int64(f.ID()), true
 		}
-	}
+		return 0, false
+	})
 	t.i(nf)
 	t = append(t, found...)
 	all := genProbes(r, keys, extra, capPerKey)
